@@ -285,11 +285,21 @@ impl Font {
             FontData::CIDFontType0(ref cid) | FontData::CIDFontType2(ref cid) => {
                 let mut widths = Widths::new(cid.default_width);
                 let mut iter = cid.widths.iter();
+                // CIDs are 16 bit numbers. the table is dense, so a larger value from the file would
+                // only make it allocate (or loop) in proportion to the number instead of the file
+                const MAX_CID: usize = 0xFFFF;
+                let cid_range = |first: usize, len: usize| -> Result<()> {
+                    match first.checked_add(len) {
+                        Some(end) if end <= MAX_CID + 1 => Ok(()),
+                        _ => Err(PdfError::Other { msg: format!("CID range {} + {} in W array exceeds {}", first, len, MAX_CID) })
+                    }
+                };
                 while let Some(p) = iter.next() {
                     let c1 = p.as_usize()?;
                     match iter.next() {
                         Some(Primitive::Array(array)) => {
-                            widths.ensure_cid(c1 + array.len() - 1);
+                            cid_range(c1, array.len())?;
+                            widths.ensure_cid((c1 + array.len()).saturating_sub(1));
                             for (i, w) in array.iter().enumerate() {
                                 widths.set(c1 + i, w.as_number()?);
                             }
@@ -297,7 +307,8 @@ impl Font {
                         Some(&Primitive::Reference(r)) => {
                             match resolve.resolve(r)? {
                                 Primitive::Array(array) => {
-                                    widths.ensure_cid(c1 + array.len() - 1);
+                                    cid_range(c1, array.len())?;
+                                    widths.ensure_cid((c1 + array.len()).saturating_sub(1));
                                     for (i, w) in array.iter().enumerate() {
                                         widths.set(c1 + i, w.as_number()?);
                                     }
@@ -305,9 +316,11 @@ impl Font {
                                 p => return Err(PdfError::Other { msg: format!("unexpected primitive in W array: {:?}", p) })
                             }
                         }
-                        Some(&Primitive::Integer(c2)) => {
+                        Some(c2 @ &Primitive::Integer(_)) => {
+                            let c2 = c2.as_usize()?;
+                            cid_range(c2, 1)?;
                             let w = try_opt!(iter.next()).as_number()?;
-                            for c in c1 ..= (c2 as usize) {
+                            for c in c1 ..= c2 {
                                 widths.set(c, w);
                             }
                         },
